@@ -84,18 +84,18 @@ theorem all_routes_guarded_false : ¬ all_routes_guarded_full := by
 
 /-- every single entry of `knownOpen` is a real counterexample (none is listed in vain). -/
 theorem knownOpen_all_unguarded :
-    ∀ k ∈ knownOpen, ∃ e ∈ endpoints, (e.method, e.pattern) = k ∧ e.guarded = false := by decide
+    ∀ k ∈ knownOpen, ∃ e ∈ endpoints, (e.method, e.pattern) = k ∧ e.guarded = false := by decide +kernel
 
 /-- **partial**: outside the explicit `knownOpen` list every endpoint is guarded. -/
 theorem all_routes_guarded_partial :
-    ∀ e ∈ endpoints, knownOpen.contains (e.method, e.pattern) = false → e.guarded = true := by decide
+    ∀ e ∈ endpoints, knownOpen.contains (e.method, e.pattern) = false → e.guarded = true := by decide +kernel
 
 /-- no registered route is shadowed by a pre-mux prefix (so `wrapped` is not moot for any of them). -/
-theorem no_route_shadowed : ∀ r ∈ routes, shadowed r = false := by decide
+theorem no_route_shadowed : ∀ r ∈ routes, shadowed r = false := by decide +kernel
 
 /-- non-vacuity: the table has wrapped, public and open entries. -/
 example : (endpoints.filter (·.wrapped)).length = 71 ∧ (endpoints.filter (·.isPublic)).length = 6
-    ∧ (endpoints.filter (fun e => !e.guarded)).length = 5 := by decide
+    ∧ (endpoints.filter (fun e => !e.guarded)).length = 5 := by decide +kernel
 
 /-! ## Part 2 — every guarded handler authorizes -/
 
